@@ -7,6 +7,7 @@ from typing import TYPE_CHECKING, Any
 
 from xknx.core.value_reader import ValueReader
 from xknx.dpt import DPTArray, DPTBase, DPTBinary
+from xknx.exceptions import ConversionError
 from xknx.telegram import Telegram
 from xknx.telegram.address import DeviceAddressableType, parse_device_group_address
 from xknx.telegram.apci import GroupValueRead, GroupValueResponse, GroupValueWrite
@@ -106,4 +107,7 @@ def _parse_payload(
         return transcoder.to_knx(value)
     if isinstance(value, int):
         return DPTBinary(value)
-    return DPTArray(value)
+    payload = DPTArray(value)
+    if not all(isinstance(byte, int) and 0 <= byte <= 0xFF for byte in payload.value):
+        raise ConversionError("Could not init DPTArray", value=str(value))
+    return payload
